@@ -65,6 +65,13 @@ def run_selfval(pid, src, rep):
         d = {"name": e["name"], "kind": kind, "status": status, "findings": finds[:4]}
         if status == "skipped":
             summary["skipped"] += 1
+        elif kind == "unproven":
+            summary["seeded"] += 1
+            if status in ("undecided", "violation"):
+                summary["caught"] += 1
+            else:
+                d["problem"] = f"variant that needs an unproven invariant passed silently ({status})"
+                rep.undecide(f"self-validation: variant '{e['name']}' (unproven index) passed silently")
         elif kind == "seeded":
             summary["seeded"] += 1
             want = e.get("rule")
